@@ -132,3 +132,75 @@ def replay(case):
     tree = parse(c['abbr'], {'max_repeat': c['maxRepeat']}) if c.get('maxRepeat') is not None else parse(c['abbr'])
     return 'abbreviation.parse(%r, maxRepeat=%r) -> %r\nexpected (model) %r' % (
         c['abbr'], c.get('maxRepeat'), _project(_listing(tree.children, 0, []), c['compared']), c.get('expected'))
+
+
+# ----------------------------------------------------------------------------------------------------------------------
+# HAML / Pug / Slim: the lines AbbrPrint.tla prints (IndentPrinted) against expand(), as (depth, text) pairs
+
+def _lines(text, indent):
+    out = []
+    for line in text.split('\n'):
+        k = 0
+        while indent and line.startswith(indent):
+            line = line[len(indent):]
+            k += 1
+        out.append([k, line.rstrip()])
+    return out
+
+
+def _indent_chunk(items):
+    emmet = common.import_emmet()
+    bad = []
+    for s, model, rows in items:
+        for syn, indent in rows:
+            case = {'abbr': s, 'syntax': syn, 'indent': indent}
+            try:
+                with common.Alarm(10):
+                    text = emmet.expand(s, {'syntax': syn, 'options': {'output.indent': indent}})
+            except Exception as ex:
+                bad.append(('expand raised', dict(case, exception=type(ex).__name__, site=common.innermost_emmet_frame(ex))))
+                continue
+            exp, got = _lines(model[syn], '\t'), _lines(text, indent)
+            if exp != got:
+                bad.append(('indent-lines (grammar)', dict(case, expected=exp, actual=got, output=text)))
+    return bad
+
+
+def indent_differential(out, name, consts, indents=('\t', '  ', 'xy '), per_vector=2):
+    c = dict(consts, RepeatLimit=UNLIMITED, SelfClosingStyle='html')
+    r = common.run_tlc('AbbrGrammar', constants=c, timeout=3000, heap='8g')
+    if r.violated:
+        out.add_tlc(name, r)
+        out.violation('spec-invariant %s violated in the model' % r.violated, {'instance': name, 'tlc': r.error[:3000]})
+        return
+    vecs = {}
+    for v in r.vectors():
+        vecs.setdefault(v['s'], v)
+    r.tagged = {}
+    if r.mode == 'bfs':
+        out.exhaustive = r.exhaustive if out.exhaustive is None else (out.exhaustive and r.exhaustive)
+    items = []
+    syns = ('pug', 'haml', 'slim')
+    for s, v in vecs.items():
+        h = zlib.crc32(s.encode()) + out.seed
+        rows = [(syns[(h + j) % 3], indents[(h // 3 + j) % len(indents)]) for j in range(per_vector)]
+        items.append((s, v['indent'], rows))
+        out.evaluations += len(rows)
+        if len(v['out']['nodes']) >= 2:
+            for syn, _ in rows:
+                out.distinct.add(('grammar', s, syn))
+    bad = common.pool_map(_indent_chunk, items, chunk=1500)
+    out.add_tlc(name, r, vectors=len(vecs))
+    out.traces += len(items)
+    for what, case in bad:
+        out.violation(what, case)
+    ks = sorted(vecs, key=lambda a: zlib.crc32(a.encode()))
+    for a in ks[:1]:
+        out.sample({'abbr': a, 'model_lines': {k: _lines(vecs[a]['indent'][k], '\t') for k in syns}})
+
+
+def indent_replay(case):
+    emmet = common.import_emmet()
+    c = case['case']
+    return 'expand(%r, syntax %s) ->\n%s\nexpected lines (model) %r' % (
+        c['abbr'], c['syntax'], emmet.expand(c['abbr'], {'syntax': c['syntax'], 'options': {'output.indent': c['indent']}}), c.get('expected'))
